@@ -337,8 +337,8 @@ func genConcPlan(prop string, seed uint64, tier string) *Plan {
 		id++
 		gc := Op{ID: id, Kind: "gc", At: r.Range(0, 60), GCBucket: c.Served[0], GCStart: r.Pick(-1, 0, 0, 0, 1), GCEnd: r.Pick(-1, -1, 0, 1, 2, 5), GCDays: 0, Merge: r.Bool(1, 3)}
 		if earlyRestartAt > 0 {
-			gc.GCStart = r.Pick(1, 1, 1, 2)
-			gc.GCEnd = r.Pick(-1, -1, 1, 2, 5)
+			gc.GCStart = r.Pick(1, 1, 2, 2) // 2: the range starts right above a full file 1, with the short file 0 below it
+			gc.GCEnd = r.Pick(-1, -1, 2, 3, 5)
 			if p.Extra["overflowLayout"] == 1 {
 				gc.GCStart = 1
 			}
